@@ -139,3 +139,19 @@ PROPS["C11"] = dict(
     assumptions=["Unix path semantics", "no pre-existing symlinks under the output directory"],
     drivers=[drivers.c11_driver],
 )
+
+PROPS["C20"] = dict(
+    no_harness=True,
+    rule=("6 (quick) / 40 (thorough) generated file sets (1..7 files, sizes 0..20000, incompressible / compressible / zero, "
+          "names with spaces, parentheses, mixed case) x create options (v1..v4 x none/zlib/bzip2/lzma, listfile) x extract "
+          "modes (whole archive, explicit names, explicit with a missing name, the same with --skip-errors; 1..4 threads): "
+          "exit status, files written byte-for-byte, `mpq list`/`info` against the library's view, `mpq validate` on intact "
+          "and damaged archives; for the dbc / wdt / wdl / mpq families every info/list/validate/tree/tiles/analyze "
+          "sub-command on valid, empty, half, header-only, magic-zeroed, tail-cut and non-existent inputs, compared with "
+          "whether the library accepts the same bytes. non-trivial = a file that round-tripped through create+extract"),
+    trusted_base=COMMON_TB + ["argument parsing and progress output are not modelled; stdout is parsed loosely (file names, "
+                              "the words 'failed'/'error')", "blp / m2 / wmo / adt sub-commands are exercised once their generators "
+                              "exist in the harness (see C13-C16)"],
+    assumptions=["a sub-command 'cannot do what was asked' iff the library rejects the same input or a per-item read fails"],
+    drivers=[drivers.c20_driver],
+)
